@@ -539,7 +539,36 @@ def _gen_large(rng, tier):
     return {"keymode": "int", "digests": False, "factor": 2, "ops": ops, "stream": "large"}
 
 
+def _slice_grid():
+    """thorough tier: every slice s[a:b:k] with a, b in {None, -11..11} and k in {None, 1, 2, 3} on a set of 8 live
+    items with one tombstone in the middle (9 slots: 1 dead is below 1/8, so it stays) - the whole grid of bounds
+    around and beyond both ends, 2304 slices in 16 histories"""
+    bounds = [None] + list(range(-11, 12))
+    grid = [(a, b, k) for k in (None, 1, 2, 3) for a in bounds for b in bounds]
+    for lo in range(0, len(grid), 144):
+        ops = [["update", [["list", list(range(9))]], "ctor"], ["remove", 4]]
+        ops += [["slice", a, b, k] for (a, b, k) in grid[lo:lo + 144]]
+        ops.append(["snap"])
+        yield {"keymode": "int", "digests": False, "ops": ops, "stream": "slicegrid"}
+
+
+def _pop_grid():
+    """thorough tier: pop(i) for every valid i (negative too) on 17 slots with two separate tombstones, and on
+    9 slots with one, each from a fresh set, followed by a snapshot"""
+    for n0, dead_ in ((9, [4]), (17, [4, 11]), (17, [11, 4]), (25, [3, 4, 20])):
+        live = n0 - len(dead_)
+        for i in list(range(-live, live)) + [None]:
+            ops = [["update", [["list", list(range(n0))]], "ctor"]] + [["remove", d] for d in dead_]
+            ops += [["pop", i], ["snap"], ["add", n0 + 1], ["get", -1], ["index", n0 + 1]]
+            yield {"keymode": "int", "digests": True, "ops": ops, "stream": "popgrid"}
+
+
 def generate(rng, tier, n):
+    if tier == "thorough" and n >= 1000:
+        for c in _slice_grid():
+            yield c
+        for c in _pop_grid():
+            yield c
     n_large = 0 if n < 100 else (1 if tier == "quick" else 4)
     for i in range(n):
         if i < n_large:
@@ -1232,7 +1261,12 @@ def distribution(d, case, obs):
 
 def extra_evidence(results):
     sv = [r for r in results if r["case"].get("stream") == "specval"]
-    return {"spec_validation": {"what": "histories run on Python's own list/set/dict (ListRef in harness/c11.py) instead of "
+    grid = [r for r in results if r["case"].get("stream") == "slicegrid"]
+    return {"exhaustive_grids": {"slices": {"what": "all s[a:b:k], a, b in {None, -11..11}, k in {None, 1, 2, 3}, on 8 live items + 1 tombstone",
+                                            "slices": sum(len(r["case"]["ops"]) - 3 for r in grid), "histories": len(grid)},
+                                 "pops": {"what": "pop(i) for every valid i and pop() on 9/17/17/25 slots with 1/2/2/3 tombstones, fresh set each",
+                                          "histories": sum(1 for r in results if r["case"].get("stream") == "popgrid")}},
+            "spec_validation": {"what": "histories run on Python's own list/set/dict (ListRef in harness/c11.py) instead of "
                                         "IndexedSet and checked against Spec.C11_Spec by the same Coq verdict",
                                 "cases": len(sv), "failed": sum(1 for r in sv if not (r["agree"] and r["holds"]))}}
 
